@@ -22,13 +22,16 @@ type Case struct {
 
 func genCase(maxOps int, crash bool) func(t *rapid.T) Case {
 	return func(t *rapid.T) Case {
-		kinds := []string{"appendB", "appendB", "appendF", "appendF", "rollback", "rollbackB", "reopen", "failB", "failF", "reappend"}
+		kinds := []string{"appendB", "appendB", "appendF", "appendF", "rollback", "rollbackB", "reopen", "failB", "failF", "reappend", "ffailB", "ffailF"}
 		if crash {
 			kinds = []string{"appendB", "appendB", "appendF", "appendF", "rollback", "rollbackB", "reappend", "reopen"}
 		}
 		op := rapid.Custom(func(t *rapid.T) Op {
 			o := Op{Kind: kit.Pick(t, "kind", kinds)}
 			switch o.Kind {
+			case "ffailB", "ffailF":
+				o.N = rapid.IntRange(1, 12).Draw(t, "n")
+				o.Cut = rapid.IntRange(0, 1000).Draw(t, "cut")
 			case "appendB", "failB", "reappend":
 				o.N = rapid.IntRange(0, 12).Draw(t, "n")
 				if !crash && rapid.IntRange(0, 9).Draw(t, "big") == 0 {
@@ -73,6 +76,7 @@ type runner struct {
 	reopenAfterMut     bool
 	mutated            bool
 	faults             int
+	fileFaults         int
 }
 
 func (r *runner) run(p prim) bool {
@@ -111,10 +115,30 @@ func (r *runner) blocksBatch(hdrs []wire.BlockHeader, from int) []headerfs.Block
 }
 
 func (r *runner) appendBlocks(hdrs []wire.BlockHeader, fail bool, name string) bool {
+	return r.appendBlocksCut(hdrs, fail, name, -1)
+}
+
+// armFile makes the next write to the store's flat file fail after cut bytes.
+func (r *runner) armFile(store any, cut, total int) error {
+	ff, err := injectFile(store)
+	if err != nil {
+		r.v.Harness = err.Error()
+		return err
+	}
+	ff.failAfter = cut % total
+	ff.armed = true
+	return nil
+}
+
+func (r *runner) appendBlocksCut(hdrs []wire.BlockHeader, fail bool, name string, cut int) bool {
 	from := len(r.m.Blocks)
 	batch := r.blocksBatch(hdrs, from)
 	return r.run(prim{name: name, expectErr: fail, do: func() error {
-		if fail {
+		if fail && cut >= 0 {
+			if err := r.armFile(r.e.BS, cut, 80*len(hdrs)); err != nil {
+				return nil
+			}
+		} else if fail {
 			r.e.DB.SetFailNext(1)
 			defer r.e.DB.SetFailNext(0)
 		}
@@ -132,7 +156,7 @@ func (r *runner) apply(op Op) bool {
 	tip := len(m.Blocks) - 1
 	ftip := len(m.Filters) - 1
 	switch op.Kind {
-	case "appendB", "failB":
+	case "appendB", "failB", "ffailB":
 		var hdrs []wire.BlockHeader
 		tmp := m.clone()
 		tmp.ctr, tmp.seed = m.ctr, m.seed
@@ -142,7 +166,7 @@ func (r *runner) apply(op Op) bool {
 			hdrs = append(hdrs, h)
 		}
 		m.ctr = tmp.ctr
-		fail := op.Kind == "failB" && op.N > 0
+		fail := op.Kind != "appendB" && op.N > 0
 		if fail {
 			r.faults++
 		}
@@ -151,6 +175,10 @@ func (r *runner) apply(op Op) bool {
 		}
 		if op.N > 0 && !fail {
 			r.mutated = true
+		}
+		if op.Kind == "ffailB" {
+			r.fileFaults++
+			return r.appendBlocksCut(hdrs, fail, op.Kind, op.Cut)
 		}
 		return r.appendBlocks(hdrs, fail, op.Kind)
 	case "reappend":
@@ -167,7 +195,7 @@ func (r *runner) apply(op Op) bool {
 		r.rolledThenAppended = true
 		r.mutated = true
 		return r.appendBlocks(hdrs, false, "reappend")
-	case "appendF", "failF":
+	case "appendF", "failF", "ffailF":
 		n := op.N
 		if n > tip-ftip {
 			n = tip - ftip
@@ -184,15 +212,21 @@ func (r *runner) apply(op Op) bool {
 			}
 			batch = append(batch, fh)
 		}
-		fail := op.Kind == "failF" && n > 0
+		fail := op.Kind != "appendF" && n > 0
 		if fail {
 			r.faults++
 		}
 		if n > 0 && !fail {
 			r.mutated = true
 		}
+		cut := op.Cut
 		return r.run(prim{name: op.Kind, expectErr: fail, do: func() error {
-			if fail {
+			if fail && op.Kind == "ffailF" {
+				r.fileFaults++
+				if err := r.armFile(r.e.FS, cut, 32*n); err != nil {
+					return nil
+				}
+			} else if fail {
 				r.e.DB.SetFailNext(1)
 				defer r.e.DB.SetFailNext(0)
 			}
@@ -347,8 +381,11 @@ func runC07(t *testing.T, c Case) (v kit.Verdict) {
 	if r.reopenAfterMut {
 		v.Class("reopen-after-mutation")
 	}
-	if r.faults > 0 {
+	if r.faults > r.fileFaults {
 		v.Class("injected-db-fault")
+	}
+	if r.fileFaults > 0 {
+		v.Class("injected-file-fault")
 	}
 	return
 }
